@@ -62,6 +62,12 @@ func main() {
 				if err := s.Put(cs); err != nil {
 					return nil, err
 				}
+				// a settled workload: status agrees with spec
+				cs.Status.ObservedGeneration, cs.Status.Replicas, cs.Status.ReadyReplicas = 1, int32(R), int32(R)
+				cs.Status.UpdateRevision, cs.Status.CurrentRevision = "demo-v2", "demo-v1"
+				if err := s.PutStatus(cs); err != nil {
+					return nil, err
+				}
 				rc := cloneset.NewController(s, types.NamespacedName{Namespace: "default", Name: "demo"}, kruisev1alpha1.SchemeGroupVersion.WithKind("CloneSet"))
 				ctrl, err := rc.BuildController()
 				if err != nil {
